@@ -2,12 +2,14 @@ package checks
 
 import (
 	"fmt"
+	"math"
 	"testing"
 
 	"github.com/sahandsafizadeh/qeep/tensor"
 	"pgregory.net/rapid"
 
 	"qeepverif/evid"
+	"qeepverif/lib"
 	"qeepverif/prog"
 	"qeepverif/ref"
 )
@@ -15,6 +17,10 @@ import (
 // C04Case: one MatMul, Dot or Transpose on fresh leaves (batch shapes broadcast-compatible).
 type C04Case struct {
 	P prog.Program `json:"p"`
+	// Reuse (0 or 8..24): after the checked product, its second operand object serves that many
+	// further products with other first operands, then the checked product is computed once
+	// more and must still be the defined one
+	Reuse int `json:"reuse,omitempty"`
 }
 
 func init() { register("C04/linalg", checkC04) }
@@ -31,10 +37,22 @@ func genC04(t *rapid.T) C04Case {
 			structureMatrices(t, p.Leaves[i].Shape, p.Leaves[i].Vals)
 		}
 	}
+	if rapid.IntRange(0, 9).Draw(t, "bigwhole") == 0 {
+		// whole numbers whose products and sums pass 2^63 (and 2^53): still exact sums of products
+		for i := range p.Leaves {
+			for k := range p.Leaves[i].Vals {
+				p.Leaves[i].Vals[k] = float64(rapid.IntRange(-9, 9).Draw(t, "wholedigit")) * math.Ldexp(1, rapid.SampledFrom([]int{0, 20, 31, 32, 40, 52}).Draw(t, "wholeexp"))
+			}
+		}
+	}
 	for i := range p.Leaves {
 		p.Leaves[i].Tracked = rapid.IntRange(0, 3).Draw(t, "tracked") == 0 // values do not depend on tracking
 	}
-	return C04Case{P: p}
+	c := C04Case{P: p}
+	if op != "transpose" && rapid.IntRange(0, 7).Draw(t, "reuse") == 0 {
+		c.Reuse = rapid.IntRange(8, 24).Draw(t, "reusen")
+	}
+	return c
 }
 
 var matrixStructures = []string{"upper", "lower", "strict_upper", "diagonal", "identity", "permutation", "symmetric", "zero", "single", "dense"}
@@ -186,6 +204,40 @@ func checkC04(c C04Case) *Failure {
 		if f := sameTensors("Dot(a,b) vs SumAlong(last)(a*b)", y, s, true); f != nil {
 			return f
 		}
+	}
+	if c.Reuse > 0 && c.Reuse <= 64 && len(n.In) == 2 {
+		b := leaves[n.In[1]]
+		sb := b.Shape()
+		for r := 0; r < c.Reuse; r++ {
+			var js []int
+			if n.Op == "matmul" {
+				js = []int{1 + r%3, sb[len(sb)-2]}
+			} else {
+				js = []int{sb[len(sb)-1]}
+			}
+			jv := make([]float64, ref.Prod(js))
+			for i := range jv {
+				jv[i] = float64((i+r)%5) - 1.75
+			}
+			j := lib.MustNew(js, jv, false)
+			var err error
+			if n.Op == "matmul" {
+				_, err = j.MatMul(b)
+			} else {
+				_, err = j.Dot(b)
+			}
+			if err != nil {
+				return failf("%s of a %v tensor with the second operand %v failed: %v", n.Op, js, sb, err)
+			}
+		}
+		y2, err := prog.ApplyLib(n, []tensor.Tensor{leaves[n.In[0]], b}, nil)
+		if err != nil {
+			return failf("%s failed after its second operand served %d other products: %v", n.Op, c.Reuse, err)
+		}
+		if f := compareTensor(fmt.Sprintf("%s after its second operand object served %d other products", n.Op, c.Reuse), y2, want, mode, scale); f != nil {
+			return f
+		}
+		evid.Class("C04.second_operand_served_9_or_more_products")
 	}
 	evid.Eval()
 	evid.Class("C04.op=" + n.Op)
